@@ -81,8 +81,9 @@ Definition ex2_text : list Z :=
   [35; 111; 117; 116; 112; 117; 116; 32; 102; 40; 32; 97; 32; 44; 32; 34; 120; 32; 121; 34; 32; 41; 32; 58; 32; 98; 46].
 Example ex2_valid : Forall (Forall stmt_ok) ex2_steps.
 Proof.
-  repeat constructor; try (unfold lit_ok, atom_ok, INT_MAX; simpl; lia).
-  right. exists 102, [], [[IChar 97]; [IStr [120; 32; 121]]]. repeat split; try reflexivity; try discriminate. repeat constructor.
+  constructor; [|constructor]. constructor; [|constructor]. split.
+  - right. exists 102, [], [[IChar 97]; [IStr [120; 32; 121]]]. repeat split; try reflexivity; try discriminate. repeat constructor.
+  - constructor; [|constructor]. unfold lit_ok, atom_ok, INT_MAX. simpl. lia.
 Qed.
 Example ex2_grammar : G_program false ex2_steps ex2_text.
 Proof.
